@@ -31,6 +31,14 @@ func (s *Shard) deleteObjs(cnr cid.ID, addrs []oid.ID) error {
 	}
 
 	hasWriteCache := s.hasWriteCache()
+
+	// Metadata goes first: if the process stops in the middle, no object is left
+	// listed as available without its data.
+	res, diff, err := s.metaBase.Delete(cnr, addrs)
+	if err != nil {
+		return err // stop on metabase error ?
+	}
+
 	if hasWriteCache {
 		for _, addr := range addrs {
 			err := s.writeCache.Delete(oid.NewAddress(cnr, addr))
@@ -40,12 +48,7 @@ func (s *Shard) deleteObjs(cnr cid.ID, addrs []oid.ID) error {
 		}
 	}
 
-	res, diff, err := s.metaBase.Delete(cnr, addrs)
-	if err != nil {
-		return err // stop on metabase error ?
-	}
-
-	if hasWriteCache {
+	if hasWriteCache && len(res) > len(addrs) {
 		for _, id := range res[len(addrs):] { // the rest are addrs, removed above
 			err := s.writeCache.Delete(oid.NewAddress(cnr, id))
 			if err != nil && !errors.Is(err, apistatus.ErrObjectNotFound) && !errors.Is(err, writecache.ErrReadOnly) {
